@@ -6,7 +6,9 @@
 #include "coap3/coap_libcoap_build.h"
 #include "oscore/oscore_context.h"
 #include "oscore/oscore_cose.h"
+#include "oscore/oscore.h"
 #include <limits.h>
+#include <stdint.h>
 #include <stdio.h>
 
 static int first = 1;
@@ -35,6 +37,8 @@ int main(void) {
   M(COAP_MAX_FS);
   P("wsHttpHdrSize", sizeof(((coap_ws_state_t *)0)->http_hdr));
   P("wsRdHeaderSize", sizeof(((coap_ws_state_t *)0)->rd_header));
+  /* T1Y: frame header bits and opcodes (C01 write side) */
+  M(WS_B0_FIN_BIT); M(WS_B0_OP_MASK); M(WS_B1_MASK_BIT); M(WS_B1_LEN_MASK); M(WS_OP_BINARY); M(WS_OP_CLOSE);
 #endif
   /* --- transmission parameters (C06 C07 C08 C12 C19) */
   M(COAP_DEFAULT_MAX_RETRANSMIT);
@@ -138,6 +142,32 @@ int main(void) {
   P("lockCountBits", 8 * sizeof(((coap_lock_t *)0)->lock_count));
   P("lockInCallbackBits", 8 * sizeof(((coap_lock_t *)0)->in_callback));
 #endif
+  /* --- T1Y: PDU header / token / option encoding macros (C01 C04), resource flags and block modes (C10), COSE (C14) */
+  M(COAP_TOKEN_DEFAULT_MAX); M(COAP_TOKEN_EXT_MAX);
+  M(COAP_TOKEN_EXT_1B_TKL); M(COAP_TOKEN_EXT_2B_TKL); M(COAP_TOKEN_EXT_1B_BIAS); M(COAP_TOKEN_EXT_2B_BIAS);
+  M(COAP_MESSAGE_SIZE_OFFSET_TCP8); M(COAP_MESSAGE_SIZE_OFFSET_TCP16); M(COAP_MESSAGE_SIZE_OFFSET_TCP32);
+  M(COAP_MAX_MESSAGE_SIZE_TCP0); M(COAP_MAX_MESSAGE_SIZE_TCP8); M(COAP_MAX_MESSAGE_SIZE_TCP16);
+  M(COAP_DEFAULT_VERSION);
+  P("optNumModulus", 1ULL << (8 * sizeof(coap_option_num_t)));
+  P("maxOptModulus", 1ULL << (8 * sizeof(((coap_pdu_t *)0)->max_opt)));
+  P("code000", COAP_RESPONSE_CODE(0)); P("code200", COAP_RESPONSE_CODE(200));
+  P("code203", COAP_RESPONSE_CODE(203)); P("code202", COAP_RESPONSE_CODE(202)); P("code412", COAP_RESPONSE_CODE(412));
+  P("uint32Modulus", 1ULL << 32);
+  /* T1Y: URI schemes (C16) */
+  M(COAP_URI_SCHEME_COAP); M(COAP_URI_SCHEME_COAPS); M(COAP_URI_SCHEME_COAP_TCP); M(COAP_URI_SCHEME_COAPS_TCP);
+  M(COAP_URI_SCHEME_HTTP); M(COAP_URI_SCHEME_HTTPS); M(COAP_URI_SCHEME_COAP_WS); M(COAP_URI_SCHEME_COAPS_WS);
+  M(COAP_URI_SCHEME_LAST); M(COAP_URI_SCHEME_SECURE_MASK);
+  P("UINT16_MAX", UINT16_MAX);
+  P("uriPortModulus", 1ULL << (8 * sizeof(((coap_uri_t *)0)->port)));
+  M(COAP_RESOURCE_FLAGS_FORCE_SINGLE_BODY);
+  M(COAP_BLOCK_STLESS_FETCH); M(COAP_BLOCK_STLESS_BLOCK2); M(COAP_BLOCK_NOT_RANDOM_BLOCK1);
+  P("failCntModulus", 1ULL << (8 * sizeof(((coap_subscription_t *)0)->fail_cnt)));
+  P("nonCntBits", 8 * sizeof(((coap_subscription_t *)0)->non_cnt));
+  M(COSE_ALGORITHM_AES_CCM_16_64_128);
+  M(COSE_ALGORITHM_AES_CCM_16_64_128_KEY_LEN); M(COSE_ALGORITHM_AES_CCM_16_64_128_NONCE_LEN);
+  P("aesCcmKeyLen", cose_key_len(COSE_ALGORITHM_AES_CCM_16_64_128));
+  P("aesCcmNonceLen", cose_nonce_len(COSE_ALGORITHM_AES_CCM_16_64_128));
+  M(OSCORE_DECRYPTION_ERROR);
   printf("}\n");
   return 0;
 }
